@@ -572,7 +572,11 @@ class GeoBox(GeoBoxBase):
         ) -> BoundingBox:
             if isinstance(crs, str):
                 if crs.lower().startswith("utm"):
-                    return BoundingBox(*bbox, crs="epsg:4326").to_crs(crs)
+                    # densify the lon/lat box first: its edges are curves in UTM and
+                    # bulge past the four projected corners
+                    return BoundingBox(*bbox, crs="epsg:4326").to_crs(
+                        crs, resolution="auto"
+                    )
 
             return BoundingBox(*bbox, crs=(crs or "epsg:4326"))
 
